@@ -10,7 +10,47 @@ TRUST = ("Trusted: rustc/Kani codegen, CBMC, CaDiCaL; the cfg(tikv_raft_rs_verif
          "preservation). Bounded: holds for all values inside the per-harness shape/unwind bounds written in the evidence file; "
          "nothing is claimed outside them.")
 
+DEC = ("Decomposed (DESIGN.md 0.2): the checks decide per-node, per-step obligations on the real code; the step from these local "
+       "obligations to the cluster-wide statement over unbounded schedules is the standard Raft induction and is NOT mechanised here. ")
+SCEN = ("Leader-side and RawNode harnesses are concrete-index scenarios (log shape, next/matched/commit/persisted indexes, roles and term "
+        "relation concrete; vote, leader id, timers, flags, payload/terms where they are pure data symbolic) because anything that decides a "
+        "vector length must be concrete for CBMC; follower-side vote / heartbeat steps are fully symbolic. ")
+
 CLAIMS = {
+ "C01": dict(text="Bounded model checking of single real steps (Raft::step for (pre)votes, appends, heartbeats, snapshots, read-index responses; RawNode ready/advance cycles): commit and applied never decrease, no entry at or below the commit index changes, commit moves only by the follower / vote / read-response rules, committed entries are handed to the application exactly once in order. " + DEC,
+            ref="3/C01", note=SCEN + TRUST),
+ "C02": dict(text="One real step per harness: a cast vote never changes within a term (all roles, symbolic requests); leadership is reached only from Candidate, at the same term, on a real-vote grant that makes the recorded votes a joint majority (3-, 5-voter and joint configurations, duplicate / stray / stale / non-voter / wrong-kind responses); a new leader starts without stale acknowledgements; RawNode releases a grant only with the hard state that records it. " + DEC,
+            ref="3/C02", note=SCEN + TRUST),
+ "C03": dict(text="Every (pre-)vote grant emitted by one real Raft::step from a symbolic state implies the candidate's (last term, last index) >= the voter's; grants carry the request's term and go to the requester; campaign requests carry the node's true last index/term/commit; commit-by-vote moves only to a locally matching (index, term). " + DEC,
+            ref="3/C03", note=SCEN + TRUST),
+ "C04": dict(text="Leader scenarios (ack, stale ack, reject, joint configs, leader-unpersisted, persistence notices, membership change): commit advances only to own-term entries acknowledged by a joint quorum per an independent counting oracle, the leader's own matched follows persistence only, a peer's matched only its acks; follower commit follows min(leader commit, last matched new index). The real maximal_committed_index is checked against the oracle in C11 and replaced by that oracle (contract stub) in Raft-level harnesses. " + DEC,
+            ref="3/C04", note=SCEN + TRUST),
+ "C05": dict(text="Follower MsgAppend over concrete term patterns (duplicate, conflict in unstable / stable region, extension, reject with hint, empty) with symbolic cursors and message term: post-log equals the sequence model, truncation exactly at the first conflict, nothing at or below commit changes; RaftLog::maybe_append likewise; leaders never rewrite their log in any leader scenario. " + DEC,
+            ref="3/C05", note=SCEN + TRUST),
+ "C06": dict(text="RawNode ready/persist/advance cycles: term never decreases; a non-leader releases messages only as persisted_messages; a granted vote is recorded in the hard state of the same Ready and that Ready is must_sync even when only the vote changed; what a leader sends immediately carries an already durable term; stale persistence notices never move persisted onto unwritten entries. Found and fixed a genuine defect (single-voter leader with learners). Crash/restart images are not explored (see level_note).",
+            ref="3/C06", note="Restart from a durable image (RawNode::new) is not executed symbolically (Raft::new + restore is too slow); the persist-before-send clauses are checked per Ready. " + SCEN + TRUST),
+ "C07": dict(text="Every clause of the Ready contract on real RawNode cycles: entries = unstable suffix handed once, hs present iff changed, must_sync rule, committed entries = exactly the committed, persisted, not-yet-handed range (contiguous, in order, none unpersisted), LightReady continues without gap/duplicate, has_ready() agrees with ready(), snapshot Ready, async persistence with an overwriting append in between.",
+            ref="3/C07", note="max_committed_size_per_ready pagination and max_apply_unpersisted_log_limit > 0 are outside the checked scenarios. " + SCEN + TRUST),
+ "C08": dict(text="Leader read-index scenarios (3 / 5 voters, joint, learner, forwarded, duplicate ack, wrong context, singleton, not yet committed in term, loss of leadership) and the follower side: a read state appears only after a joint quorum of distinct voters acknowledged the request's context, carries the commit index recorded at request time, and goes only to the requester; pending reads die with the term. " + DEC,
+            ref="3/C08", note=SCEN + TRUST),
+ "C09": dict(text="Proposal filtering (pending change, second change in a batch, enter while joint, leave while not joint, batch [normal, change]), campaign gating on unapplied membership entries (hup / timeout / MsgTimeoutNow), promotable = voter of own config after apply_conf_change and snapshot install, non-voters never campaign; configuration after apply equals reference semantics (C12). " + DEC,
+            ref="3/C09", note=SCEN + TRUST),
+ "C10": dict(text="Only the per-step 'cannot stay stuck' obligations are decided: heartbeat response resumes a paused probe / frees a full window / respects an outstanding snapshot, rejections strictly lower next_idx, snapshot status reports and unreachable reports move progress to the right state, ticks fire elections and heartbeats exactly on schedule, check-quorum verdict exact. The first sentence (bounded-time convergence of the whole cluster) is NOT decided.",
+            ref="3/C10", note="Liveness over a fair suffix needs many ticks on several nodes - out of reach for bounded model checking of the real code (DESIGN.md 0.2). " + SCEN + TRUST),
+ "C11": dict(text="Real JointConfig/MajorityConfig::committed_index and vote_result, ProgressTracker::{maximal_committed_index, tally_votes, quorum_recently_active} against counting oracles for halves of 0..=5 voters (0..=3 quick), symbolic distinct ids per half (overlap free), symbolic 64-bit acked indexes, ids missing from the indexer, symbolic groups for group commit.",
+            ref="3/C11", note="Halves of 6-9 voters (the heap path of committed_index) are outside the bound. " + TRUST),
+ "C12": dict(text="Real Changer::{simple, enter_joint, leave_joint} + apply_conf over listed configurations and every change type with ids 0..=5 (incl. 0 and untracked): result equals reference semantics, invariants hold, <=1 voter changes in simple, rejects leave everything untouched, quorum overlap old/new with two symbolic quorums through the real vote_result; ConfState round trip; Raft::apply_conf_change dispatch.",
+            ref="3/C12", note="Change lists of length <= 3 over listed id tuples (ids decide vector lengths, hence concrete). " + TRUST),
+ "C13": dict(text="Every message a leader emits in the leader scenarios is a contiguous slice of its log anchored at a log position, commits advertised <= commit (heartbeats also <= matched), inflight count <= max_inflight, at most one entry-carrying append while probing then paused, nothing while a snapshot is outstanding; uncommitted-size admission at the exact boundary; size-limited reads are maximal prefixes (C14).",
+            ref="3/C13", note="batch_append = true and adjust_max_inflight_msgs at runtime are not in the Raft-level scenarios (Inflights resizing is C18). " + SCEN + TRUST),
+ "C14": dict(text="Real RaftLog<VStore>: queries (term, match_term, is_up_to_date, find_conflict_by_term, has_next_entries_since) and cursor operations (maybe_commit, commit_to, maybe_persist, applied_to) with symbolic arguments, maybe_append over concrete term patterns, size-limited slice at every prefix-sum boundary, restore / stable_snap / maybe_persist_snap sequence - all against a sequence model.",
+            ref="3/C14", note="Logs of <= 4 live entries; storage compaction between calls only as a shape (base = 7). " + TRUST),
+ "C15": dict(text="Follower MsgSnapshot four-way case split (stale / non-member / already matching and not requested / install, incl. joint ConfState and requested snapshots) with exact post-states and continuation by a following append; leader sends a snapshot exactly when the needed entries are compacted and one is available, progress enters Snapshot(pending); snapshot status / caught-up acks resume at the right index; RawNode snapshot Ready. " + DEC,
+            ref="3/C15", note=SCEN + TRUST),
+ "C16": dict(text="Sentence 1 decided for every role with symbolic requests: a pre-vote request never changes term or vote. In-lease nodes ignore non-transfer campaigns (symbolic timers incl. the lease edge); a pre-candidate raises its term only by winning or when told of a higher one; stray pre-vote grants never disturb followers or leaders; check-quorum verdict exact. The lock-step sentence is decomposed. " + DEC,
+            ref="3/C16", note=SCEN + TRUST),
+ "C17": dict(text="Leader scenarios: MsgTimeoutNow only to the transferee once it matched the whole log (request time or later ack), learner/unknown targets ignored, self at most cancels, proposals refused during transfer, transfer abandoned after an election timeout or when the target leaves the voters; target side goes straight to a real election with the transfer context. " + DEC,
+            ref="3/C17", note=SCEN + TRUST),
  "C18": dict(
    text="Bounded model checking of the real Inflights code: induction base (new(c)) + one operation of every kind "
         "(add, free_to, free_first_one, reset, maybe_free_buffer, set_cap(k)) from every representation state of capacity "
@@ -19,6 +59,10 @@ CLAIMS = {
         "order, effective capacity, shrink applied at drain) and checked for invariant preservation, so histories of any "
         "length over those capacities are covered; plus public-API-only scripted sequences with drain comparison.",
    ref="3/C18", note="Capacities and set_cap arguments above 4-6 are outside the bound. " + TRUST),
+ "C19": dict(text="Real MemStorage driven by scripted mutation sequences (append incl. overwriting, compact, apply_snapshot, hard state, commit_to, set_conf_state; symbolic terms / hard state / configuration ids) compared with a model on first/last index, term over a window of indexes incl. compacted and unavailable ones, range reads with and without size limit, snapshot(request). Found and fixed a genuine defect (empty range on an empty store).",
+            ref="3/C19", note="Op kinds and index offsets are concrete per script (<= 4 mutations); std RwLock/Arc replaced by single-threaded stand-ins under the cfg guard. " + TRUST),
+ "C20": dict(text="Kani's built-in panic / unwrap / index / overflow / unreachable checks over every explored path of the RawNode cycles and representative Raft steps, plus RawNode::step rejecting local types and non-member responses with state untouched, campaign right after a snapshot step, a leader that removed itself. Two genuine defects found: one fixed (leader self-removal), one recorded as known finding (single voter re-campaigning with an unpersisted tail).",
+            ref="3/C20", note=SCEN + TRUST),
 }
 NA = {}
 ALL = [json.loads(l)["id"] for l in open(os.path.join(V, "properties.jsonl"))]
